@@ -630,7 +630,15 @@ XREL = 'depccg/printer/xml.py'
 
 
 class XmlRec(Contract):
-    rel, qualname = XREL, '_process_tree.rec'
+    rel, role = XREL, '_process_tree.rec'
+
+    def __init__(self):
+        # nested in _process_tree (the token queue / position counter is a closure variable) or a module-level function it calls (then the queue is its third
+        # parameter): found by role
+        self.qualname = find_recursive_helper(XREL, '_process_tree', '_process_tree.rec')
+        self.nested = '.' in self.qualname
+        self._counter = False
+        self._env = None
 
     def closure_env(self, I, f):
         m = I.load_module('depccg.printer.xml')
@@ -640,6 +648,14 @@ class XmlRec(Contract):
         self._queue = the_one(closure_names(I, f)[0], 'the token queue', self.name)
         self._counter = self.queue_is_counter(I, self._queue)
         return env
+
+    def _queue_of(self, I, f, args):
+        """the queue / counter object of a call: the closure variable, or the third argument of the module-level form"""
+        if self.nested:
+            return f.env.lookup(the_one(closure_names(I, f)[0], 'the token queue', self.name))
+        if len(args) != 3:
+            raise CheckerError(f'{self.qualname} is called with {len(args)} arguments (expected node, parent, tokens)')
+        return args[2]
 
     @staticmethod
     def queue_is_counter(I, name):
@@ -667,9 +683,14 @@ class XmlRec(Contract):
             k0, n = z3.Int('k0'), z3.Int('n_tokens')
             q = SymCounter(k0) if self._counter else SymTokenQueue(None, k0, n)
             parent = SymElem('parent')
-            self._env.set(self._queue, q)
             self._pre = (t, k0, n, q, parent)
-            return [SymTree(t), parent], {}, [k0 >= 0 if self._counter else self.pre(k0, n, t)], None
+            if self.nested:
+                self._env.set(self._queue, q)
+                return [SymTree(t), parent], {}, [k0 >= 0 if self._counter else self.pre(k0, n, t)], None
+            f = I.find_function(self.rel, self.qualname)
+            if len(f.node.args.args) != 3:
+                raise CheckerError(f'{self.qualname}: expected the parameters (node, parent, tokens)')
+            return [SymTree(t), parent, q], {}, [self.pre(k0, n, t)], None
         yield Case('any-node', build)
 
     def post(self, I, case, args, result):
@@ -684,10 +705,10 @@ class XmlRec(Contract):
 
     def apply(self, I, args, kwargs, node):
         f = I.callee
-        if len(args) != 2 or not isinstance(args[0], SymTree) or not isinstance(args[1], SymElem):
+        if len(args) not in (2, 3) or not isinstance(args[0], SymTree) or not isinstance(args[1], SymElem):
             raise CheckerError('rec(node, parent) called with unexpected arguments')
         t, parent = args[0].e, args[1]
-        q = f.env.lookup(the_one(closure_names(I, f)[0], 'the token queue', self.name))
+        q = self._queue_of(I, f, args)
         if not isinstance(q, (SymTokenQueue, SymCounter)):
             raise CheckerError('rec called while its closure variable is neither the token queue nor a position counter')
         unfold_leaf_tag(I, getattr(self, '_pre', (None,))[0]) if I.target_contract is self and getattr(self, '_pre', None) else None
